@@ -20,8 +20,10 @@
      a nil pointer satisfies everything but required.                          *)
 EXTENDS Integers, Sequences, FiniteSets, TLC, Layers, Json, SequencesExt
 
-Kinds == {"int", "int8", "uint", "float64", "dur", "string", "pint", "pdur", "pstring", "pfloat64", "lint", "mint"}
-BaseOf(k) == CASE k = "pint" -> "int" [] k = "pdur" -> "dur" [] k = "pstring" -> "string" [] k = "pfloat64" -> "float64" [] OTHER -> k
+\* idint: a NAMED int type with InitDefaults (sets 7): without a setting the field holds what InitDefaults set - whatever
+\* it was pre-filled with - and that value must satisfy the tag like any other
+Kinds == {"int", "int8", "uint", "float64", "dur", "string", "pint", "pdur", "pstring", "pfloat64", "lint", "mint", "idint"}
+BaseOf(k) == CASE k = "pint" -> "int" [] k = "pdur" -> "dur" [] k = "pstring" -> "string" [] k = "pfloat64" -> "float64" [] k = "idint" -> "int" [] OTHER -> k
 IsPtr(k) == k \in {"pint", "pdur", "pstring", "pfloat64"}
 NumBase(b) == b \in {"int", "int8", "uint", "float64", "dur"}
 
@@ -78,7 +80,8 @@ Valid(k, tg, fv, fromCfg) ==
 ValidProp(k, tg, fv) == IF fv = NilPtr THEN tg.op # "required" ELSE IF IsPtr(k) /\ tg.op = "required" THEN TRUE ELSE Satisfies(BaseOf(k), tg, fv.n)
 \* a list / map setting is MERGED into the pre-filled value (index-wise / by key): the longer one decides the length
 Final(k, dflt, set) ==
-  IF set.s # "val" THEN dflt
+  IF k = "idint" /\ set.s # "val" THEN Val(7)
+  ELSE IF set.s # "val" THEN dflt
   ELSE IF BaseOf(k) \in {"lint", "mint"} THEN Val(IF dflt.n > set.n THEN dflt.n ELSE set.n)
   ELSE Val(set.n)
 Outcome(k, tg, dflt, set) ==
